@@ -587,6 +587,10 @@ impl CompactThetaSketch {
         }
     }
 
+    fn is_ascending(entries: &[u64]) -> bool {
+        entries.windows(2).all(|pair| pair[0] < pair[1])
+    }
+
     fn read_entries(
         cursor: &mut SketchSlice<'_>,
         num_entries: usize,
@@ -634,10 +638,10 @@ impl CompactThetaSketch {
         let entries = Self::read_entries(&mut cursor, num_entries, theta)?;
 
         Ok(Self {
+            ordered: Self::is_ascending(&entries),
             entries,
             theta,
             seed_hash,
-            ordered: true,
             empty: false,
         })
     }
@@ -680,10 +684,10 @@ impl CompactThetaSketch {
                 let entries = Self::read_entries(&mut cursor, num_entries, MAX_THETA)?;
                 let empty = entries.is_empty();
                 Ok(Self {
+                    ordered: Self::is_ascending(&entries),
                     entries,
                     theta: MAX_THETA,
                     seed_hash,
-                    ordered: true,
                     empty,
                 })
             }
@@ -701,10 +705,10 @@ impl CompactThetaSketch {
                 let empty = (num_entries == 0) && (theta == MAX_THETA);
                 let entries = Self::read_entries(&mut cursor, num_entries, theta)?;
                 Ok(Self {
+                    ordered: Self::is_ascending(&entries),
                     entries,
                     theta,
                     seed_hash,
-                    ordered: true,
                     empty,
                 })
             }
@@ -753,7 +757,9 @@ impl CompactThetaSketch {
             }
             entries = Self::read_entries(&mut cursor, num_entries as usize, theta)?;
         }
-        let ordered = (flags & serialization::FLAGS_IS_ORDERED) != 0;
+        // the ordered form is what the compressed writer relies on: an image only claiming it is read as unordered
+        let ordered =
+            (flags & serialization::FLAGS_IS_ORDERED) != 0 && Self::is_ascending(&entries);
         Ok(Self {
             entries,
             theta,
